@@ -246,6 +246,13 @@ def _fmt_cases(tier):
                 for sep in SEPS:
                     cases.append({"part": "fmt", "shape": list(shape), "kind": "gap", "ext": ext, "sep": sep,
                                   "reader": "table"})
+        # text images that start with a comment line (what numpy.savetxt(..., header="flat field") writes)
+        if shape in ((2, 3), (3, 2)):
+            for ext in (".txt", ".data"):
+                for sep in SEPS:
+                    for rd in ("image", "m-charge"):
+                        cases.append({"part": "fmt", "shape": list(shape), "kind": "int", "ext": ext, "sep": sep,
+                                      "reader": rd, "title": True})
         # FITS files whose primary HDU is empty and whose image sits in the first extension (multi-extension files)
         for rd in ("image", "m-image", "m-charge"):
             cases.append({"part": "fmt", "shape": list(shape), "kind": "float64", "ext": ".fits", "sep": None,
@@ -261,7 +268,7 @@ def _n_fmt(tier):
         per_shape += 5 * (4 + (0 if tier == "quick" else mimg + 1))       # .data
         per_shape += 5 * 2                                                # .csv
     per_shape += len(BIN_DTYPES) * (6 + 4) + 1 + 3
-    return per_shape * len(FMT_SHAPES) + 2 * 5
+    return per_shape * len(FMT_SHAPES) + 2 * 5 + 2 * 2 * 5 * 2
 
 
 def _run_fmt(case):
@@ -274,7 +281,8 @@ def _run_fmt(case):
     rd = case["reader"]
 
     def bad(code, what):
-        viol.append(({"part": "fmt", "reader": rd, "ext": case["ext"] + ("[ext1]" if case.get("layout") else ""),
+        viol.append(({"part": "fmt", "reader": rd, "ext": case["ext"] + ("[ext1]" if case.get("layout") else "")
+                      + ("[title]" if case.get("title") else ""),
                       "sep": case["sep"], "code": code, "cols": "1col" if shape[1] == 1 else "ncol"},
                      f"{rd} of a {shape} '{case['kind']}' file{case['ext']} (sep={case['sep']}): {what}"))
 
@@ -284,6 +292,11 @@ def _run_fmt(case):
         if case["sep"] is not None:
             toks = text_tokens(case["kind"], n, seed)
             write_text(path, toks, shape, SEPS[case["sep"]])
+            if case.get("title"):
+                with open(path) as fh:
+                    body = fh.read()
+                with open(path, "w") as fh:
+                    fh.write("# flat field\n" + body)
             exp = np.array([float(t) if t else np.nan for t in toks], dtype="float64").reshape(shape)
             shown = toks
         elif rd == "fits-table":
@@ -328,7 +341,8 @@ def _run_fmt(case):
                 bad("shape", f"returned shape {None if got is None else np.shape(got)}, written {shape} (content {shown})")
             elif not _same(got, exp):
                 bad("values", f"returned {_txt(got)}, file holds {shown}")
-    return {"viol": viol, "sig": cfgx.sig([case["shape"], case["kind"], case["ext"], case["sep"], rd, case.get("layout")]),
+    return {"viol": viol, "sig": cfgx.sig([case["shape"], case["kind"], case["ext"], case["sep"], rd, case.get("layout"),
+                                           case.get("title")]),
             "nontrivial": got is not None, "n": 1, "outcome": _txt(got)[:200]}
 
 
